@@ -73,7 +73,7 @@ class SimChannel(DummyChannel):
 RW_CAP = re.compile(rb"URI:(?:DIR2|DIR2-MDMF|SSK|MDMF):[a-z2-7]+:[a-z2-7]+(?::[0-9]+:[0-9]+)?")
 RO_CAP = re.compile(rb"URI:(?:DIR2-RO|DIR2-MDMF-RO|SSK-RO|MDMF-RO|CHK|DIR2-CHK|DIR2-LIT|LIT):[a-z2-7]+(?::[a-z2-7]+)?(?::[0-9]+:[0-9]+:[0-9]+)?")
 
-MUTABLE_MAGIC = b"Tahoe mutable container v1\n"
+MUTABLE_MAGIC = b"Tahoe mutable container v"      # schema version 1 or 2; same header layout
 DATA_OFFSET = 32 + 20 + 32 + 8 + 8 + 4 * (4 + 4 + 32 + 32 + 20)
 
 MODIFYING_POST = ("mkdir", "mkdir-with-children", "mkdir-immutable", "upload", "uri", "unlink", "delete", "rename", "relink", "set_children", "set-children")
@@ -419,6 +419,10 @@ def exec_web(case):
                 if req.code == 401:
                     bad("private-area-refused-right-token", "GET /private/logs/v1 with the right token answered 401")
                 return
+            if not box and "private" in facts:
+                # only the right token may get past the guard (the log resource then takes the connection over and never "finishes")
+                bad("private-area-open", "GET /private/logs/v1 with token kind %r was not answered 401: the request was handed to the protected resource" % (facts["private"],))
+                return
             if not box:
                 bad("request-hung", "%s: the response never finished (quiescent)" % where)
                 return
@@ -476,6 +480,11 @@ def exec_web(case):
             if presented and code is not None and code < 400:
                 probe("authorized-success")
 
+        # the ground truth must see every mutable object of the tree, or the before/after comparison is blind
+        gt0 = disk_state()
+        missing = [n["name"] for n in nodes if n["mutable"] and base32.b2a(n["si"]).decode("ascii") not in gt0]
+        if missing:
+            raise RuntimeError("harness: ground truth does not see the shares of %r" % (missing,))
         opi = 0
         ops = case["ops"]
         while opi < len(ops):
